@@ -3,6 +3,7 @@ include!(concat!(env!("OUT_DIR"), "/repo_mods.rs"));
 mod enc;
 mod rules;
 mod misc;
+mod srch;
 
 use serde_json::{json, Value};
 use std::collections::HashMap;
@@ -62,6 +63,7 @@ fn main() {
                 with_text: a.n("text", 0) != 0,
                 with_pos: a.n("pos", 0) != 0,
                 repeat_bias: a.f("repeat-bias", 0.0),
+                emit_gen: a.n("gen", 1) != 0,
             };
             let mut sd = seeds();
             if let Some(p) = a.kv.get("seeds-file") {
@@ -94,6 +96,22 @@ fn main() {
             sh.emit(0, &ev);
             sh.finish();
             json!({"events": 1})
+        }
+        "scen" => {
+            let v = srch::scenarios(&t, &seeds(), a.n("seed", 1), a.n("small", 10) as usize, a.n("mate", 10) as usize, a.n("rep", 10) as usize, a.n("game", 5) as usize);
+            std::fs::write(a.s("out", "scen.json"), serde_json::to_string(&v).unwrap()).unwrap();
+            json!({"scenarios": v.as_array().unwrap().len()})
+        }
+        "expiry" | "trees" => {
+            let v: Value = serde_json::from_str(&std::fs::read_to_string(a.s("scen", "scen.json")).unwrap()).unwrap();
+            let tags: Vec<String> = a.s("tags", "small,mate,rep,game").split(',').map(|x| x.to_string()).collect();
+            let cmds: Vec<String> = v.as_array().unwrap().iter().filter(|x| tags.contains(&x["tag"].as_str().unwrap().to_string()))
+                .map(|x| x["cmd"].as_str().unwrap().to_string()).collect();
+            if a.cmd == "expiry" {
+                srch::expiry_enumeration(&t, &cmds, &a.s("out", "."), a.n("shards", 16) as usize, a.n("seed", 1), a.n("depth", 3) as i64, a.n("budget", 200000), a.n("cap", 3000), &a.s("tag", "expiry"))
+            } else {
+                srch::tree_events(&t, &cmds, &a.s("out", "."), a.n("shards", 16) as usize, a.n("depth", 3) as u8, a.n("budget", 200000), a.n("cap", 60000) as usize)
+            }
         }
         "audit" => {
             let (n, distinct, zeros) = t.audit();
